@@ -198,7 +198,9 @@ func refersTo(repo *repository, iter descIter, digest ociregistry.Digest) (found
 			if b == nil {
 				break
 			}
-			miter, err := manifestReferences(info.desc.MediaType, b.data)
+			// Note: interpret the manifest according to the media type it
+			// was stored with, not what the referring descriptor claims.
+			miter, err := manifestReferences(b.mediaType, b.data)
 			if err != nil {
 				retErr = err
 				return false
